@@ -73,14 +73,18 @@ pub struct CaseDesc {
 }
 
 pub trait Fl: Copy + Into<f64> + 'static {
+    /// the other float width (for alpha of another scalar type than the color's)
+    type Other: Fl;
     fn narrow(x: f64) -> Self;
 }
 impl Fl for f32 {
+    type Other = f64;
     fn narrow(x: f64) -> f32 {
         x as f32
     }
 }
 impl Fl for f64 {
+    type Other = f32;
     fn narrow(x: f64) -> f64 {
         x
     }
@@ -144,6 +148,56 @@ where
     ends
 }
 
+/// The same for a type whose slots do not all have one float width (alpha of another scalar type): values
+/// travel as `f64`, `round` says what each slot really stores.
+pub fn run_mixed<C>(
+    mk: fn([f64; 4]) -> C,
+    get: fn(&C) -> [f64; 4],
+    round: fn([f64; 4]) -> [f64; 4],
+    within: fn(&C) -> Option<bool>,
+    req: &Request,
+    rng: &mut SimRng,
+    sink: &mut dyn FnMut(Sample),
+) -> Ends
+where
+    C: SampleUniform + Clone,
+    Standard: Distribution<C>,
+{
+    let ends = Ends { lo: round(req.lo), hi: round(req.hi) };
+    let mut emit = |c: &C| sink(Sample { comps: get(c), within: within(c) });
+    match req.dist {
+        DistKind::Standard => {
+            for _ in 0..req.n {
+                rng.mark();
+                let c: C = rng.gen();
+                emit(&c);
+            }
+        }
+        DistKind::Uniform { inclusive } => {
+            let (lo, hi) = (mk(req.lo), mk(req.hi));
+            let u = if inclusive { Uniform::new_inclusive(lo, hi) } else { Uniform::new(lo, hi) };
+            for _ in 0..req.n {
+                rng.mark();
+                let c = u.sample(rng);
+                emit(&c);
+            }
+        }
+        DistKind::Single { inclusive } => {
+            let (lo, hi) = (mk(req.lo), mk(req.hi));
+            for _ in 0..req.n {
+                rng.mark();
+                let c = if inclusive {
+                    <C::Sampler as UniformSampler>::sample_single_inclusive(lo.clone(), hi.clone(), rng)
+                } else {
+                    <C::Sampler as UniformSampler>::sample_single(lo.clone(), hi.clone(), rng)
+                };
+                emit(&c);
+            }
+        }
+    }
+    ends
+}
+
 macro_rules! case_body {
     ($name:literal, $shape:literal, $c:ident, $n:expr, $fl:literal, $eps:expr,
      |$a:ident| $mk:expr, |$g:ident| [$($get:expr),+], [$($k:expr),+], [$($d:expr),+], [$($e:expr),+]) => {
@@ -173,6 +227,27 @@ macro_rules! case_body {
             // `Alpha<C, f32>` has no `IsWithinBounds` of its own (the impl asks for `T: IsWithinBounds`): this
             // resolves through `Deref` to the color. The alpha component is judged separately (0..=1).
             Some(c.color.is_within_bounds())
+        }
+        // alpha of the other float width than the color's components
+        type O = <T as Fl>::Other;
+        fn mk_m(a: [f64; 4]) -> Alpha<Col, O> {
+            Alpha { color: mk(narrow(a)), alpha: <O as Fl>::narrow(a[$n]) }
+        }
+        fn get_m(c: &Alpha<Col, O>) -> [f64; 4] {
+            let mut o = widen(get(&c.color));
+            o[$n] = c.alpha.into();
+            o
+        }
+        fn round_m(a: [f64; 4]) -> [f64; 4] {
+            let mut o = widen(narrow::<T>(a));
+            o[$n] = <O as Fl>::narrow(a[$n]).into();
+            o
+        }
+        fn within_m(c: &Alpha<Col, O>) -> Option<bool> {
+            Some(c.color.is_within_bounds())
+        }
+        fn run_m(req: &Request, rng: &mut SimRng, sink: &mut dyn FnMut(Sample)) -> Ends {
+            run_mixed::<Alpha<Col, O>>(mk_m, get_m, round_m, within_m, req, rng, sink)
         }
         fn run(req: &Request, rng: &mut SimRng, sink: &mut dyn FnMut(Sample)) -> Ends {
             run_generic::<Col, T>(mk, get, within, req, rng, sink)
@@ -213,7 +288,7 @@ macro_rules! case_body {
             }
             out
         }
-        pub static DESCS: [CaseDesc; 2] = [
+        pub static DESCS: [CaseDesc; 3] = [
             CaseDesc {
                 name: concat!($name, "<", $fl, ">"),
                 color: $name,
@@ -239,6 +314,21 @@ macro_rules! case_body {
                 exact: pad_e(&[$($e),+], true),
                 eps: $eps,
                 run: run_a,
+            },
+            // ends are drawn at f32 resolution and judged with f32 tolerances whichever of the two widths the color
+            // has: both are sound for the wider slots, and the plain cases above judge those sharply
+            CaseDesc {
+                name: concat!("Alpha<", $name, "<", $fl, ">, other float>"),
+                color: $name,
+                shape: $shape,
+                float: "f32",
+                alpha: true,
+                n: $n + 1,
+                kinds: pad_k(&[$($k),+], true),
+                dom: pad_d(&[$($d),+]),
+                exact: pad_e(&[$($e),+], true),
+                eps: f32::EPSILON as f64,
+                run: run_m,
             },
         ];
     };
